@@ -19,7 +19,8 @@ func zzH05b() {
 	a := zzAdvertiser(rec, st, cfg)
 	ipC := make(chan netip.Addr, 16)
 	ctx, cancel := context.WithCancel(context.Background())
-	zzAfterBlock, zzAfterLog, zzAfterChans = true, nil, nil
+	zzAfterBlock, zzAfterLog, zzWaits, zzAfterChans, zzAfterZero = true, nil, nil, nil, 0
+	zeroAtFirst := 0
 	returned := false
 	go func() {
 		a.multicast(ctx, ipC)
@@ -33,11 +34,17 @@ func zzH05b() {
 			return
 		}
 		zzAssert(<-ipC == netip.IPv6LinkLocalAllNodes(), "requests-go-to-all-nodes")
-		zzAssert(len(zzAfterLog) == j+1, "one-wait-per-iteration")
-		if len(zzAfterLog) != j+1 {
+		// a timer that is due immediately before the first request is not a
+		// wait between advertisements; afterwards there must be none
+		if j == 0 {
+			zeroAtFirst = zzAfterZero
+		}
+		zzAssert(zzAfterZero == zeroAtFirst, "no-non-positive-wait")
+		zzAssert(len(zzWaits) == j+1, "one-wait-per-iteration")
+		if len(zzWaits) != j+1 {
 			return
 		}
-		d := zzAfterLog[j]
+		d := zzWaits[j]
 		zzAssert(zzAnd(d >= time.Second, d%time.Second == 0), "wait-positive-whole-seconds")
 		zzAssert(d <= zzRoundSec(max), "wait-at-most-max")
 		capped := zzAnd(j < 3, zzRoundSec(min) > 16*time.Second)
